@@ -1,0 +1,120 @@
+//go:build verif
+
+package compiler
+
+// Contracts for the Numscript compiler (C12, C08): the code it emits is well typed for the VM's stack.
+//
+// tstack is the compile-time image of the VM stack: one machine.Type per value the code emitted so far leaves on
+// the stack when it runs. Every emission primitive updates it; an instruction may only be emitted when the types
+// it will pop are on top (opTyped). The VM's typed pops (vm/stack.go pop[T]) panic exactly when that fails.
+//@ ghost tstack seq[int]
+
+// the parse tree is immutable while it is visited: its accessors (generated parser package, antlr runtime) are
+// deterministic and have no effects (assumed)
+//@ purepkg github.com/formancehq/ledger/internal/machine/script/parser
+//@ purepkg github.com/antlr/antlr4/runtime/Go/antlr
+
+// the machine.Type of a value / of the value a resource resolves to (vm.ResolveResources keeps the type)
+//@ def valType(v) = ite(typeis(v, "machine.AccountAddress"), 1, ite(typeis(v, "machine.Asset"), 2, ite(typeis(v, "*machine.MonetaryInt") || typeis(v, "machine.MonetaryInt"), 3, ite(typeis(v, "machine.String"), 4, ite(typeis(v, "machine.Monetary"), 5, ite(typeis(v, "machine.Portion"), 6, ite(typeis(v, "machine.Allotment"), 7, ite(typeis(v, "machine.Funding"), 9, 0))))))))
+//@ def isRes(r) = typeis(r, "program.Constant") || typeis(r, "program.Variable") || typeis(r, "program.VariableAccountMetadata") || typeis(r, "program.VariableAccountBalance") || typeis(r, "program.Monetary")
+//@ def resType(r) = ite(typeis(r, "program.Constant"), valType(as(r, "program.Constant").Inner), ite(typeis(r, "program.Variable"), as(r, "program.Variable").Typ, ite(typeis(r, "program.VariableAccountMetadata"), as(r, "program.VariableAccountMetadata").Typ, ite(typeis(r, "program.VariableAccountBalance"), 5, ite(typeis(r, "program.Monetary"), 5, valType(r))))))
+
+// machine.Value and program.Resource have the same method set (GetType), so each type implements both
+//@ iface program.Resource.GetType
+//@   implementers
+//@   property C12 C08
+//@   pure
+//@   ensures ret == resType(recv)
+//@ iface machine.Value.GetType
+//@   implementers
+//@   property C12 C08
+//@   pure
+//@   ensures ret == resType(recv)
+// a constant wraps a machine value, never another resource descriptor
+//@ typeinv program.Constant: !isRes(self.Inner) // C12 C08
+
+// ---- typing rules of the instructions with a fixed stack effect (vm/machine.go tick)
+//@ def n(s) = len(s)
+//@ def t0(s) = s[len(s)-1]
+//@ def t1(s) = s[len(s)-2]
+//@ def t2(s) = s[len(s)-3]
+//@ def binop(o) = o == program.OP_IADD || o == program.OP_ISUB || o == program.OP_MONETARY_ADD || o == program.OP_MONETARY_SUB
+// opTyped(o, s): the values instruction o pops with a typed pop have the right types
+//@ def opTyped(o, s) = ((o == program.OP_IADD || o == program.OP_ISUB) ==> n(s) >= 2 && t0(s) == 3 && t1(s) == 3) && ((o == program.OP_MONETARY_ADD || o == program.OP_MONETARY_SUB) ==> n(s) >= 2 && t0(s) == 5 && t1(s) == 5) && (o == program.OP_MONETARY_NEW ==> n(s) >= 2 && t0(s) == 3 && t1(s) == 2)
+// opResult(o, s): the stack types after o (instructions whose effect depends on run-time numbers leave it unknown)
+//@ ufun unknownStack(o int, s []int) []int
+//@ def opResult(o, s) = ite(o == program.OP_IADD || o == program.OP_ISUB, snoc(s[:len(s)-2], 3), ite(o == program.OP_MONETARY_ADD || o == program.OP_MONETARY_SUB || o == program.OP_MONETARY_NEW, snoc(s[:len(s)-2], 5), unknownStack(o, s)))
+
+//@ func (*compiler.parseVisitor).AppendInstruction
+//@   requires p != nil
+//@   requires opTyped(instruction, tstack) // C12 C08
+//@   update tstack = opResult(instruction, tstack)
+//@   modifies parseVisitor.instructions, ghost tstack
+
+//@ func (*compiler.parseVisitor).PushAddress
+//@   requires p != nil && addr < len(p.resources)
+//@   update tstack = snoc(tstack, resType(p.resources[addr]))
+//@   modifies parseVisitor.instructions, ghost tstack
+
+// ---- the resource table: entries are only ever appended, so an address keeps its resource (and its type)
+//@ def grows(p) = len(p.resources) >= old(len(p.resources)) && (forall i0 in 0..old(len(p.resources)) :: p.resources[i0] == old(p.resources[i0]))
+// every declared variable designates a resource
+// (addresses are 16 bits wide: the table never holds more than 65536 resources)
+//@ def pvInv(p) = p != nil && len(p.resources) <= 65536 && (forall k0 string :: has(p.varIdx, k0) ==> p.varIdx[k0] < len(p.resources))
+//@ def addrOK(p, a, t) = a != nil && 0 <= deref(a) && deref(a) < len(p.resources) && resType(p.resources[deref(a)]) == t
+
+// reflect-based comparison: values that compare equal have the same dynamic type
+//@ func machine.ValueEquals
+//@   pure
+//@   ensures ret ==> valType(lhs) == valType(rhs)
+//@   trusted uses reflect.TypeOf on both operands first
+
+//@ func (*compiler.parseVisitor).findConstant
+//@   requires p != nil && len(p.resources) <= 65536
+//@   pure
+//@   ensures ret1 ==> ret0 != nil && 0 <= deref(ret0) && deref(ret0) < len(p.resources) && resType(p.resources[deref(ret0)]) == valType(constant.Inner)
+//@   loop 1 invariant 0 <= i && i <= len(p.resources)
+
+//@ func (*compiler.parseVisitor).AllocateResource
+//@   requires p != nil && len(p.resources) <= 65536
+//@   ensures err == nil ==> addrOK(p, ret0, resType(res))
+//@   ensures grows(p) && p.varIdx == old(p.varIdx) && len(p.resources) <= 65536
+//@   modifies parseVisitor.resources
+
+// ---- expressions: an expression compiled with push leaves exactly one value of the type VisitExpr reports
+// (the address, when there is one, designates a resource of the reported type; only number arithmetic has none)
+
+//@ func (*compiler.parseVisitor).VisitVariable
+//@   requires pvInv(p)
+//@   ensures ret2 == nil ==> (ret1 != nil ==> addrOK(p, ret1, ret0)) // C12 C08
+//@   ensures ret2 == nil ==> (ret0 != 3 ==> ret1 != nil) // C12 C08
+//@   ensures ret2 == nil && push ==> tstack == snoc(old(tstack), ret0) // C12 C08
+//@   ensures ret2 == nil && !push ==> tstack == old(tstack) // C12 C08
+//@   ensures grows(p) && pvInv(p)
+//@   modifies parseVisitor.instructions, ghost tstack
+//@   property C12 C08
+
+//@ func (*compiler.parseVisitor).VisitLit
+//@   requires pvInv(p)
+//@   ensures ret2 == nil ==> (ret1 != nil ==> addrOK(p, ret1, ret0)) // C12 C08
+//@   ensures ret2 == nil ==> (ret0 != 3 ==> ret1 != nil) // C12 C08
+//@   ensures ret2 == nil && push ==> tstack == snoc(old(tstack), ret0) // C12 C08
+//@   ensures ret2 == nil && !push ==> tstack == old(tstack) // C12 C08
+//@   ensures grows(p) && pvInv(p)
+//@   loop 1 invariant 0 - 1 <= rangeindex && rangeindex < len(p.resources)
+//@   loop 1 invariant alreadyAllocated ==> addrOK(p, monAddr, 5)
+//@   modifies parseVisitor.instructions, parseVisitor.resources, ghost tstack
+//@   property C12 C08
+
+// grammar fact: the operator token of `lhs op rhs` is + or - (NumScript.g4: op=(OP_ADD|OP_SUB))
+//@ def addSubOp(c) = lib("iface:antlr.Token.GetTokenType", lib("(*parser.ExprAddSubContext).GetOp", as(c, "*parser.ExprAddSubContext")))
+//@ func (*compiler.parseVisitor).VisitExpr
+//@   requires pvInv(p)
+//@   assumes typeis(c, "*parser.ExprAddSubContext") ==> addSubOp(c) == parser.NumScriptLexerOP_ADD || addSubOp(c) == parser.NumScriptLexerOP_SUB
+//@   ensures ret2 == nil ==> (ret1 != nil ==> addrOK(p, ret1, ret0)) // C12 C08
+//@   ensures ret2 == nil ==> (ret0 != 3 ==> ret1 != nil) // C12 C08
+//@   ensures ret2 == nil && push ==> tstack == snoc(old(tstack), ret0) // C12 C08
+//@   ensures ret2 == nil && !push ==> tstack == old(tstack) // C12 C08
+//@   ensures grows(p) && pvInv(p)
+//@   modifies parseVisitor.instructions, parseVisitor.resources, ghost tstack
+//@   property C12 C08
